@@ -211,9 +211,9 @@ pub use keys::secp256k1;
 pub use keys::{ed25519_dalek, CombinedKey, CombinedPublicKey};
 
 pub use builder::Builder;
-pub use keys::{EnrKey, EnrKeyUnambiguous, EnrPublicKey};
 #[cfg(feature = "verif")]
 pub use keys::SigningError;
+pub use keys::{EnrKey, EnrKeyUnambiguous, EnrPublicKey};
 pub use node_id::NodeId;
 use std::marker::PhantomData;
 
@@ -556,6 +556,7 @@ impl<K: EnrKey> Enr<K> {
         value: Bytes,
         enr_key: &K,
     ) -> Result<Option<Bytes>, Error> {
+        check_single_rlp_item(&value)?;
         check_spec_reserved_keys(key.as_ref(), &value)?;
         let raw_key = key.as_ref().to_vec();
         let previous_value = self.content.insert(raw_key.clone(), value);
@@ -1253,6 +1254,15 @@ pub(crate) fn digest(b: &[u8]) -> [u8; 32] {
     let mut output = [0_u8; 32];
     output.copy_from_slice(&Keccak256::digest(b));
     output
+}
+
+/// Checks that `value` consists of exactly one RLP item (no truncated payload, no trailing bytes).
+pub(crate) fn check_single_rlp_item(mut value: &[u8]) -> Result<(), Error> {
+    let header = Header::decode(&mut value)?;
+    if value.len() != header.payload_length {
+        return Err(Error::InvalidRlpData(DecoderError::UnexpectedLength));
+    }
+    Ok(())
 }
 
 pub(crate) fn check_spec_reserved_keys(key: &[u8], mut value: &[u8]) -> Result<(), Error> {
